@@ -250,3 +250,44 @@ func VerifHarness_C20_pools() {
 	}
 	verifAssert("blocks/usable-iff-inside-an-eligible-pool", (len(in) == 1) == inside && (len(out) == 1) == !inside)
 }
+
+// VerifHarness_C20_whole: MatchesWholeCIDR (does the reservation list cover a whole candidate
+// block?) on every list of three reservations from a table of nested, adjacent and foreign CIDRs,
+// against address-by-address coverage; and the call leaves the reservation list intact: afterwards
+// MatchesIP still answers by prefix arithmetic over the ORIGINAL reservations for a free address.
+func VerifHarness_C20_whole() {
+	table := []string{"10.0.0.0/28", "10.0.0.16/28", "10.0.0.0/29", "10.0.0.8/29", "10.0.1.0/26", "10.0.0.4/30"}
+	cands := []string{"10.0.0.0/28", "10.0.0.0/27", "10.0.1.0/26", "10.0.0.0/29"}
+	var rsv cidrSliceFilter
+	var bases, masks []uint32
+	for i := 0; i < 3; i++ {
+		_, n, _ := cnet.ParseCIDR(table[verifChoose("reservation", len(table))])
+		rsv = append(rsv, *n)
+		ones, _ := n.Mask.Size()
+		ip4 := n.IP.To4()
+		bases = append(bases, uint32(ip4[0])<<24|uint32(ip4[1])<<16|uint32(ip4[2])<<8|uint32(ip4[3]))
+		masks = append(masks, uint32(0xffffffff)<<(32-uint32(ones)))
+	}
+	inside := func(ip uint32) bool {
+		for i := range bases {
+			if ip&masks[i] == bases[i] {
+				return true
+			}
+		}
+		return false
+	}
+	_, cand, _ := cnet.ParseCIDR(cands[verifChoose("candidate", len(cands))])
+	ones, _ := cand.Mask.Size()
+	c4 := cand.IP.To4()
+	cbase := uint32(c4[0])<<24 | uint32(c4[1])<<16 | uint32(c4[2])<<8 | uint32(c4[3])
+	covered := true
+	for off := uint32(0); off < uint32(1)<<(32-uint32(ones)); off++ {
+		if !inside(cbase + off) {
+			covered = false
+		}
+	}
+	verifAssert("whole/covered-iff-every-address-reserved", rsv.MatchesWholeCIDR(cand) == covered)
+	ip := verifU32("probe")
+	got := rsv.MatchesIP(cnet.IP{IP: gonet.IP{byte(ip >> 24), byte(ip >> 16), byte(ip >> 8), byte(ip)}})
+	verifAssert("whole/reservations-intact-after-the-query", got == inside(ip))
+}
